@@ -27,9 +27,15 @@ var baseModes = []string{"each", "whole", "comp", "compeach", "load", "loadtwice
 func modesFor(p *program, tier string) (out []string) {
 	out = append(out, baseModes...)
 	for i, alt := range p.alts {
+		if p.redefAll && i != len(p.alts)-1 {
+			continue // the caller's alternative passes a key only the callee's alternative has: redefined together only
+		}
 		if alt != "" {
 			out = append(out, "redef:"+strconv.Itoa(i), "compredef:"+strconv.Itoa(i))
 		}
+	}
+	if p.redefAll {
+		out = append(out, "redefall", "compredefall")
 	}
 	if !p.stateful && !p.noEarly {
 		out = append(out, "early", "compearly")
@@ -146,6 +152,30 @@ func buildHistory(p *program, perm []int, mode string, uniq func(string) string)
 			add('C', slotBack, "", "compile-def", chkOK)
 		}
 		add('E', slotBack, "", "redef", chkOK)
+		add('E', slotMain, "", "after-restore", chkExact)
+	case "redefall", "compredefall":
+		// every definition that has an alternative is redefined (callee first: natural order reversed), then main
+		comp := cls == "compredefall"
+		defEach(comp)
+		readMain(slotMain, comp)
+		add('E', slotMain, "", "main", chkExact)
+		redo := func(texts []string, base int) {
+			for i := len(texts) - 1; 0 <= i; i-- {
+				if p.alts[i] == "" {
+					continue
+				}
+				add('R', base+i, uniq(texts[i]), "", chkNone)
+				if comp {
+					add('C', base+i, "", "compile-def", chkOK)
+				}
+				add('E', base+i, "", "redef", chkOK)
+			}
+		}
+		redo(p.alts, 40)
+		add('E', slotMain, "", "after-redef", chkExact)
+		readMain(slotMain2, comp)
+		add('E', slotMain2, "", "fresh-after-redef", chkExact)
+		redo(p.defs, 60)
 		add('E', slotMain, "", "after-restore", chkExact)
 	case "early", "compearly":
 		comp := cls == "compearly"
